@@ -10,7 +10,7 @@ import ast
 from dataclasses import dataclass
 
 from sa.hdlcmodel import FRAME, MOD, READER, SELF, HdlcModel, loc
-from sa.paths import Engine, show_path, show_sv
+from sa.paths import Engine, show_path, show_sv, strip_epoch
 
 
 @dataclass
@@ -21,6 +21,28 @@ class Result:
     text: str
     line: int = 0
     witness: str = None
+
+
+
+def _memo_on_model(fn):
+    """results of a pure function of the model, computed once per model; callers get their own copies of the Result records"""
+    import dataclasses
+    import functools
+    cache = {}
+
+    @functools.wraps(fn)
+    def wrapper(m):
+        ent = cache.get(id(m))
+        if ent is None or ent[0] is not m:
+            ent = (m, fn(m))
+            cache[id(m)] = ent
+        r = ent[1]
+        if isinstance(r, list):
+            return [dataclasses.replace(x) if dataclasses.is_dataclass(x) else x for x in r]
+        if isinstance(r, tuple) and r and isinstance(r[0], list):
+            return ([dataclasses.replace(x) if dataclasses.is_dataclass(x) else x for x in r[0]],) + r[1:]
+        return r
+    return wrapper
 
 
 NOT_A = [{"A1": False}, {"A2": False}, {"A3": False}]
@@ -158,6 +180,7 @@ ROWS = [
 MAXLEN = 2047
 
 
+@_memo_on_model
 def conformance(m: HdlcModel):
     res = []
     for rid, desc, alts, exp, demanded in ROWS:
@@ -271,6 +294,7 @@ def appended_values(m: HdlcModel):
 
 
 # ---------------------------------------------------------------------------------------------- typestate (C16/R1)
+@_memo_on_model
 def leak_typestate(m: HdlcModel):
     """Explore the abstract automaton (mode, pending-source, raw-source) induced by the table; per-frame state set in one
     frame must be clean again before the first in-frame row of the next frame."""
@@ -369,6 +393,7 @@ def leak_typestate(m: HdlcModel):
 
 
 # ---------------------------------------------------------------------------------------------- read() skeleton
+@_memo_on_model
 def skeleton(m: HdlcModel):
     """Statements of read() outside the per-octet loop: chunk only extends the buffer (N1), hunt-mode trim only while hunting (N5),
     consumed input released on every exit (C19/R1), no other state change (N2/N3), result list returned."""
@@ -428,7 +453,14 @@ def skeleton(m: HdlcModel):
                 continue  # no representative chunk takes this path
             if not any(taken):
                 # only the empty chunk: nothing is added to the buffer, which the previous call left fully consumed and released
-                if any(e[0] in ("write", "mutate", "setitem") for e in p.effects):
+                role_fields = {R.frame, R.pending, R.raw, R.stuffing, R.abort}
+                hits = [e for e in p.effects if (e[0] == "write" and e[1] == ("self0",) and e[2] in role_fields)
+                        or (e[0] == "mutate" and isinstance(e[1], tuple) and e[1][:2] == ("f0", ("self0",)) and len(e[1]) > 2 and e[1][2] in role_fields)]
+                if hits:
+                    res.append(Result("bad", "skeleton", "empty-chunk-state", "a read() call with an empty chunk changes the reader's framing state: the frames returned depend on whether the splitting "
+                                      "contains empty pieces (a frame in progress is lost)", hits[0][-1] if isinstance(hits[0][-1], int) else fn.node.lineno,
+                                      witness=f"read(b'') under [{'; '.join(t for t, _, _ in unknown) or 'any state'}] writes self.{hits[0][2] if hits[0][0] == 'write' else hits[0][1][2]}"))
+                elif any(e[0] in ("write", "mutate", "setitem") for e in p.effects):
                     res.append(Result("undecided", "skeleton", "empty-chunk-path", "read() changes reader state on a path only the empty chunk takes", fn.node.lineno))
                 n_trim_ok += 1
                 continue
@@ -473,12 +505,21 @@ def skeleton(m: HdlcModel):
                     continue
                 res.append(Result("bad", "skeleton", f"buffer.{short}", f"read() calls buffer.{short} outside the per-octet step", e[-1]))
                 continue
-            if e[0] in ("write", "mutate", "callm", "call", "setitem"):
-                what = f"{e[0]} {show_sv(e[1]) if isinstance(e[1], tuple) else e[1]}" + (f".{e[2]}" if e[0] in ("write", "mutate") else "")
+            if e[0] in ("write", "mutate", "callm", "call", "setitem", "memo"):
+                what = f"{e[0]} {show_sv(e[1]) if isinstance(e[1], tuple) else e[1]}" + (f".{e[2]}" if e[0] in ("write", "mutate", "memo") else "")
+                if e[0] == "memo":
+                    what = f"the cached_property {e[2]} of {show_sv(e[1])} is read (its value is frozen at this point, which depends on where the call boundary falls)"
                 res.append(Result("bad", "skeleton", "state-change-outside-step", "reader state is changed outside the per-octet step, so the result depends on where read() calls are cut",
                                   e[-1], witness=what))
         if not extended:
             res.append(Result("bad", "chunk-flow", "no-extend", "a path through read() does not buffer the chunk", fn.node.lineno))
+        def _sig(q):
+            return tuple((e_[0],) + tuple(strip_epoch(x) if isinstance(x, tuple) else x for x in e_[1:-1]) for e_ in q.effects if e_[0] not in ("log", "try"))
+
+        def _known(q):
+            return tuple((strip_epoch(g_), pol_) for g_, pol_, _ in q.guards if g_ == ("cmp", "Is", frame0, ("c", None)) or (_cm(g_, PC) and chunk_only(g_, PC)))
+        if unknown and len({_sig(q) for q in paths if q.status == "return" and _known(q) == _known(p)}) == 1:
+            unknown = []  # whichever way the extra condition goes, read() does the same (it only selects what is logged)
         if unknown and not any(r.kind == "bad" for r in res):
             for t, pol, ln in unknown:
                 res.append(Result("undecided", "skeleton", "branch-outside-step", f"control flow of read() outside the per-octet step depends on a condition other than hunt mode / the chunk ({t})", ln))
@@ -628,6 +669,7 @@ BUF_TEXT = {"pop-octet": "returns the first unconsumed octet and advances the re
             "avail": "true exactly when an unconsumed octet exists", "extend": "appends the chunk at the end of the buffer"}
 
 
+@_memo_on_model
 def buffer_contracts(m: HdlcModel):
     """E-SEQ: every buffer method the reader uses satisfies the contract of the role it is used in (abstract evaluation over
     content slices and read position; independent of field names, slicing idiom or branch layout)."""
